@@ -84,7 +84,8 @@ def main(tier: str, seed: int) -> int:
     v = Verdict(PROP, tier, seed, 'model_checking')
     fams = families(tier)
     agg = reffam.run_families(
-        fams, seed, max_replay=150 if tier == 'quick' else 3000)
+        fams, seed, max_replay=150 if tier == 'quick' else 3000,
+        nseeds=1 if tier == 'quick' else 3)
     reffam.report(v, agg, fams, CATS)
     v.coverage['distinct_nontrivial'] = int(
         agg['stats'].get('steps', 0)) + agg['behaviours']
